@@ -63,8 +63,12 @@ class Creators:
       if gfapy.is_placeholder(key):
         key = id(gfa_line)
       elif key.isdigit():
-        keynum = int(key)
-        if keynum > self._max_int_name:
+        try:
+          keynum = int(key)
+        except ValueError:
+          # digits int() does not convert (e.g. superscripts), or too many
+          keynum = None
+        if keynum is not None and keynum > self._max_int_name:
           self._max_int_name = keynum
       self._records[gfa_line.record_type][key] = gfa_line
     elif storage_key == "external":
